@@ -419,7 +419,7 @@ def chain_case(sc, obs):
 
 
 def election_flat(code, o):
-    return flat_obs(code, o) + [o["size"]] + list(o["cluster"] or [])
+    return flat_obs(code, o) + [o["size"]] + list(o["cluster"] or []) + [o["mem"]]
 
 
 def election_case(sc, obs):
@@ -459,6 +459,9 @@ def election_predicates(sc, obs, stats):
     fails = []
     n = sc["n"]
     gen = list(range(n))
+    # a scenario in which BPCOUNT changes exercises the known finding (ranking cut at the in-memory value)
+    bpcount_changes = any(op[0] == "T" and op[3] != n for op in sc["ops"])
+    KF = "C08:bp-snapshot-bpcount-from-memory"
     states = {0: ([], n)}
     blocks = {0: {"parent": None, "no": 0, "sid": 0}}
     prev = None
@@ -484,14 +487,14 @@ def election_predicates(sc, obs, stats):
         stats["election_steps"] = stats.get("election_steps", 0) + 1
         if o["res"] in ("connected", "reorg", "restored"):
             if o["cluster"] != spec:
-                fails.append(("C08:producer-set-not-function-of-chain",
+                fails.append((KF if bpcount_changes else "C08:producer-set-not-function-of-chain",
                               "producer set %s after block %d is not the ranking %s committed at reference height %d"
                               % (o["cluster"], bestno, spec, r), {"op_index": k}))
             if st["cr"] != (2 * o["size"]) // 3 + 1:
                 fails.append(("C08:confirms-required-not-current",
                               "confirmsRequired %d with %d current producers" % (st["cr"], o["size"]), {"op_index": k}))
         if op[0] in ("S", "R") and prev is not None and o["cluster"] != prev["cluster"]:
-            fails.append(("C08:producer-set-differs-after-restart",
+            fails.append((KF if bpcount_changes else "C08:producer-set-differs-after-restart",
                           "producer set after restart %s differs from the one computed online %s for the same chain"
                           % (o["cluster"], prev["cluster"]), {"op_index": k}))
         if o["res"] == "connected" and bestno % 100 == 0 and bestno > 0:
